@@ -282,3 +282,10 @@ PROPS = {
                 'and outputs under both modes; non-trivial = reuse and re-execution both occur',
     },
 }
+
+
+# the contract's state invariants, judged per trace by FBTrace: whichever check meets a violation reports it
+INV_CLAUSES = {'InvView', 'InvAtomic', 'InvClaims', 'InvCache'}
+for _p in PROPS.values():
+    if 'owned' in _p:
+        _p['owned'] = set(_p['owned']) | INV_CLAUSES
